@@ -1303,3 +1303,118 @@ mod tests {
         assert_eq!(metadata.language, Some("eng".to_string()));
     }
 }
+
+// ============================================================================
+// Verification hooks (cargo feature `verif`): read-only state digest and a
+// constructor that wraps an already-built writer. Add-only; not compiled by
+// default.
+// ============================================================================
+#[cfg(feature = "verif")]
+#[doc(hidden)]
+#[allow(clippy::too_many_arguments)]
+pub mod verif {
+    use super::*;
+
+    #[derive(Clone, Copy, Debug, PartialEq)]
+    pub struct MuxerDigest {
+        pub first_video_pts: Option<u64>,
+        pub last_video_pts: Option<u64>,
+        pub last_video_dts: Option<u64>,
+        pub last_audio_pts: Option<u64>,
+        pub video_frame_count: u64,
+        pub audio_frame_count: u64,
+        pub finished: bool,
+        pub current_video_pts: u64,
+        pub current_audio_pts: u64,
+        pub fast_start: bool,
+        pub audio_configured: bool,
+        pub metadata_present: bool,
+    }
+
+    /// Every scalar field of the muxer; f64 values as raw bit patterns so that
+    /// equality is bit-identity.
+    pub fn muxer_digest<W>(m: &Muxer<W>) -> MuxerDigest {
+        MuxerDigest {
+            first_video_pts: m.first_video_pts.map(f64::to_bits),
+            last_video_pts: m.last_video_pts.map(f64::to_bits),
+            last_video_dts: m.last_video_dts.map(f64::to_bits),
+            last_audio_pts: m.last_audio_pts.map(f64::to_bits),
+            video_frame_count: m.video_frame_count,
+            audio_frame_count: m.audio_frame_count,
+            finished: m.finished,
+            current_video_pts: m.current_video_pts.to_bits(),
+            current_audio_pts: m.current_audio_pts.to_bits(),
+            fast_start: m.fast_start,
+            audio_configured: m.audio_track.is_some(),
+            metadata_present: m.metadata.is_some(),
+        }
+    }
+
+    pub fn writer<W>(m: &Muxer<W>) -> &Mp4Writer<W> {
+        &m.writer
+    }
+
+    pub fn video_track<W>(m: &Muxer<W>) -> &VideoTrackConfig {
+        &m.video_track
+    }
+
+    pub fn audio_track<W>(m: &Muxer<W>) -> Option<&AudioTrackConfig> {
+        m.audio_track.as_ref()
+    }
+
+    pub fn metadata<W>(m: &Muxer<W>) -> Option<&Metadata> {
+        m.metadata.as_ref()
+    }
+
+    /// Wrap an already-constructed writer; all bookkeeping fields are given.
+    pub fn muxer_from_parts<W>(
+        writer: Mp4Writer<W>,
+        video_track: VideoTrackConfig,
+        audio_track: Option<AudioTrackConfig>,
+        metadata: Option<Metadata>,
+        fast_start: bool,
+        first_video_pts: Option<f64>,
+        last_video_pts: Option<f64>,
+        last_video_dts: Option<f64>,
+        last_audio_pts: Option<f64>,
+        video_frame_count: u64,
+        audio_frame_count: u64,
+        finished: bool,
+        current_video_pts: f64,
+        current_audio_pts: f64,
+    ) -> Muxer<W> {
+        Muxer {
+            writer,
+            video_track,
+            audio_track,
+            metadata,
+            fast_start,
+            first_video_pts,
+            last_video_pts,
+            last_video_dts,
+            last_audio_pts,
+            video_frame_count,
+            audio_frame_count,
+            finished,
+            current_video_pts,
+            current_audio_pts,
+        }
+    }
+
+    pub fn is_keyframe<W: Write>(m: &Muxer<W>, data: &[u8]) -> bool {
+        m.is_keyframe(data)
+    }
+
+    /// Builder fields that `new_with_fragment` forwards.
+    pub fn builder_param_lens<W>(
+        b: &MuxerBuilder<W>,
+    ) -> (Option<usize>, Option<usize>, Option<usize>, Option<usize>, bool) {
+        (
+            b.sps.as_ref().map(|v| v.len()),
+            b.pps.as_ref().map(|v| v.len()),
+            b.vps.as_ref().map(|v| v.len()),
+            b.av1_sequence_header.as_ref().map(|v| v.len()),
+            b.vp9_config.is_some(),
+        )
+    }
+}
